@@ -501,6 +501,11 @@ static int_t c__2 = 2;
 	mc21ad_(n, &irn[1], ne, &ip[1], &iw[1], &cperm[1], num, &iw[*n+1]);
 #else
 	printf(" ****** Warning from MC64A/AD. Need to link mc21ad.\n");
+	/* No matching was computed: NUM and CPERM are not set. Report
+	   JOB = 1 as unavailable instead of examining them at L90. */
+	info[1] = -1;
+	info[2] = *job;
+	goto L99;
 #endif
 	goto L90;
     }
